@@ -92,6 +92,57 @@ def one_spec(tt, gid, g, cons, seed, settings):
     return {"spec": spec, "kinds": kinds, "nsol": len(sols), "exc": exc}
 
 
+SEARCH_SPEC = '<start> ::= <a> <b>?\n<a> ::= "x" | "(" <a> ")"\n<b> ::= <a>{1,2}\n'
+
+
+def _strip(ir):
+    return {"sym": ir["sym"], "term": ir["term"], "kind": ir["kind"], "val": ir["val"], "ch": [_strip(c) for c in ir["ch"]]}
+
+
+def _replay_search(hists):
+    """spec -> code: operator histories of Search.tla applied with the real DerivationTree.replace"""
+    from harness.fan import make, quiet, build_tree, tree_ir, struct_key
+    quiet()
+    g = make(SEARCH_SPEC).grammar
+
+    def at(t, path):
+        for i in path:
+            t = t.children[i - 1]
+        return t
+    viol = []
+    steps = 0
+    for h in hists:
+        pop = [build_tree(t) for t in h[0]["post"]]
+        for k, st in enumerate(h[1:], 1):
+            steps += 1
+            before = [struct_key(t) for t in pop]
+            ops = " ; ".join("%s(%s,%s)" % (x["op"], x["i"], x["p"]) for x in h[1:k + 1])
+            try:
+                if st["op"] == "replace":
+                    i = st["i"] - 1
+                    new = pop[i].replace(g, at(pop[i], st["p"]), build_tree(st["sub"]))
+                    if struct_key(pop[i]) != before[i]:
+                        viol.append(("search:" + ops, "history %s: replace modified its input tree" % ops, {"history": h[:k + 1]}))
+                    pop[i] = new
+                else:
+                    n1, n2 = at(pop[0], st["p"]), at(pop[1], st["q"])
+                    c1 = pop[0].replace(g, n1, n2)
+                    c2 = pop[1].replace(g, n2, n1)
+                    if [struct_key(t) for t in pop] != before:
+                        viol.append(("search:" + ops, "history %s: crossover modified a parent" % ops, {"history": h[:k + 1]}))
+                    pop = [c1, c2]
+            except Exception as e:  # noqa
+                viol.append(("search:" + ops, "history %s: operator raised %s: %s" % (ops, type(e).__name__, e), {"history": h[:k + 1]}))
+                break
+            got = [_strip(tree_ir(t)) for t in pop]
+            exp = [_strip(t) for t in st["post"]]
+            if got != exp:
+                viol.append(("search:" + ops, "history %s: the population differs from the specification's after the last operator" % ops,
+                             {"history": h[:k + 1], "got": got}))
+                break
+    return steps, viol
+
+
 def _nodes(n):
     yield n
     for x in n["xs"]:
@@ -105,6 +156,28 @@ def has_computed(g):
 def run(tier, seed):
     rep = Report(PROP, tier, seed, "model_checking")
     rnd = random.Random(seed)
+    # design level: the operators preserve Inv_Valid iff replacements keep the symbol; histories replayed into the code
+    from harness.common import run_tlc, pmap
+    r = run_tlc("MC_Search", "MC_Search_ok", workers=8, timeout=900)
+    if r.violated:
+        raise common.Machinery("Search model violates %s" % r.violated)
+    rep.tlc(r, "MC_Search_ok")
+    r2 = run_tlc("MC_Search", "MC_Search_unsafe", workers=2, timeout=300)
+    if r2.violated != "Inv_Valid":
+        raise common.Machinery("sanity: replacements across symbols should violate Inv_Valid")
+    r = run_tlc("MC_Search", "MC_Search_emit", workers=1, timeout=1800, heap="8g")
+    hists = r.printed("HIST")
+    rep.tlc(r, "MC_Search_emit")
+    if len(hists) < 1000:
+        raise common.Machinery("only %d operator histories" % len(hists))
+    if tier == "quick":
+        hists = [h for h in hists if rnd.random() < 0.04]
+    rsteps = 0
+    for n_, viol in pmap(_replay_search, [hists[i::16] for i in range(16)]):
+        rsteps += n_
+        for v in viol:
+            rep.violation(*v)
+    rep.add(operator_histories_replayed=len(hists), operator_steps_replayed=rsteps)
     nspecs = 60 if tier == "quick" else 1200
     tt = TreeTrace("c01")
     stats = []
